@@ -44,7 +44,16 @@ func leastSquaresSection(r *vlib.Run) {
 			// factor and random row coefficients.
 			kappa := []float64{2, 10, 100}[rng.Intn(3)]
 			sv := genSingularValues(rng, 3, kappa, scale)
-			f := matMul(3, matDiag(sv), matT(3, randOrth(rng, 3, 1)))
+			orth := randOrth(rng, 3, 1)
+			axisRows := rng.Intn(4) == 0
+			if axisRows {
+				// measurement directions that are right-angle rotations of the axes: the normal matrix
+				// is diagonal up to rounding noise (see quarterTurnOrth)
+				orth = quarterTurnOrth(rng, 3)
+				nRows = 3
+				rows, b = rows[:3], b[:3]
+			}
+			f := matMul(3, matDiag(sv), matT(3, orth))
 			for i := range rows {
 				coef := []float64{rng.NormFloat64(), rng.NormFloat64(), rng.NormFloat64()}
 				if i < 3 {
